@@ -157,14 +157,21 @@ pub fn all(data: &Value, args: &Vec<&Value>) -> Result<Value, Error> {
     // we will then pass on
 
     let _new_item: Value;
+    // Elements of an array written in the rule are rule text and get
+    // evaluated below; elements of a computed collection are data.
+    let items_are_rule_text: bool;
     let potentially_evaled_first_arg = match first_arg {
         Value::Object(_) => {
             let parsed = Parsed::from_value(first_arg)?;
             let evaluated = parsed.evaluate(data)?;
             _new_item = evaluated.into();
+            items_are_rule_text = false;
             &_new_item
         }
-        _ => first_arg,
+        _ => {
+            items_are_rule_text = true;
+            first_arg
+        }
     };
 
     let _new_arr: Vec<Value>;
@@ -211,11 +218,15 @@ pub fn all(data: &Value, args: &Vec<&Value>) -> Result<Value, Error> {
             if !res {
                 return Ok(false);
             };
-            let _parsed_item = Parsed::from_value(i)?;
             // Evaluate each item as we go, in case we can short-circuit
-            let evaluated_item = _parsed_item.evaluate(data)?;
+            let evaluated_item: Value = if items_are_rule_text {
+                let _parsed_item = Parsed::from_value(i)?;
+                _parsed_item.evaluate(data)?.into()
+            } else {
+                i.clone()
+            };
             Ok(logic::truthy_from_evaluated(
-                &predicate.evaluate(&evaluated_item.into())?,
+                &predicate.evaluate(&evaluated_item)?,
             ))
         })
     })?;
@@ -239,14 +250,21 @@ pub fn some(data: &Value, args: &Vec<&Value>) -> Result<Value, Error> {
     // we will then pass on
 
     let _new_item: Value;
+    // Elements of an array written in the rule are rule text and get
+    // evaluated below; elements of a computed collection are data.
+    let items_are_rule_text: bool;
     let potentially_evaled_first_arg = match first_arg {
         Value::Object(_) => {
             let parsed = Parsed::from_value(first_arg)?;
             let evaluated = parsed.evaluate(data)?;
             _new_item = evaluated.into();
+            items_are_rule_text = false;
             &_new_item
         }
-        _ => first_arg,
+        _ => {
+            items_are_rule_text = true;
+            first_arg
+        }
     };
 
     let _new_arr: Vec<Value>;
@@ -293,11 +311,15 @@ pub fn some(data: &Value, args: &Vec<&Value>) -> Result<Value, Error> {
             if res {
                 return Ok(true);
             };
-            let _parsed_item = Parsed::from_value(i)?;
             // Evaluate each item as we go, in case we can short-circuit
-            let evaluated_item = _parsed_item.evaluate(data)?;
+            let evaluated_item: Value = if items_are_rule_text {
+                let _parsed_item = Parsed::from_value(i)?;
+                _parsed_item.evaluate(data)?.into()
+            } else {
+                i.clone()
+            };
             Ok(logic::truthy_from_evaluated(
-                &predicate.evaluate(&evaluated_item.into())?,
+                &predicate.evaluate(&evaluated_item)?,
             ))
         })
     })?;
